@@ -52,7 +52,7 @@ def text_of(l):
         return repr(l)
 
 
-def run_containers(ctx, known, built, prop, light=False):
+def run_containers(ctx, known, built, prop, light=False, tags=("C06:", "C07:")):
     """shared by C06 and C07: histories through harness and model; returns the summary"""
     from driver import sh, coq_values, parse_term
     out = os.path.join(ctx.scratch, "c06")
@@ -70,8 +70,8 @@ def run_containers(ctx, known, built, prop, light=False):
     for sh_ in summ["shards"]:
         text = open(os.path.join(out, sh_["id"] + ".txt"), encoding="utf-8").read()
         if sh_["kind"] == "trie":
-            cmd = "Eval vm_compute in run_trie up low names %s %s %s %d %s." % (
-                one(sh_["start"]), one(sh_["alphabet"]), one(sh_["prefix"]), sh_["depth"], lit(text))
+            cmd = "Eval vm_compute in run_trie up low names %s %s %s %s %d %s." % (
+                one(sh_["start"]), one(sh_["alphabet"]), one(sh_["prefix"]), one(sh_["state0"]), sh_["depth"], lit(text))
         else:
             cmd = "Eval vm_compute in run_histories up low names %s." % lit(text)
         jobs.append((sh_["weight"], sh_, cmd))
@@ -115,8 +115,9 @@ def run_containers(ctx, known, built, prop, light=False):
                 idx = open(os.path.join(out, sh_["id"] + ".idx")).read().split("\n")
                 exp = open(os.path.join(out, sh_["id"] + ".txt"), encoding="utf-8").read().split("\n")
                 for (node, mtxt) in diffs[:10]:
-                    d = {"what": "model and implementation differ after the last operation of this history",
-                         "start": sh_["start"], "ops": idx[node] if node < len(idx) else "(structure of the trie differs: code %d)" % node,
+                    d = {"what": "model and implementation differ after the last operation of this history"
+                                 if node < 999990 else "model and implementation differ on the state before the first enumerated operation",
+                         "start": sh_["start"], "ops": idx[node] if node < len(idx) else sh_["prefix"],
                          "model": text_of(mtxt), "implementation": exp[node] if node < len(exp) else None,
                          "shard": sh_["id"], "format": "outcome|state ('=' unchanged); state = layer:dir:glyph probes;"}
                     ctx.disagreements.append(d)
@@ -125,16 +126,21 @@ def run_containers(ctx, known, built, prop, light=False):
                 for (hi, steps) in diffs[:10]:
                     parts = lines[hi].split("#")
                     step, mtxt = steps[0]
-                    d = {"what": "model and implementation differ at operation number %d of this history" % step,
+                    d = {"what": ("model and implementation differ at operation number %d of this history" % step)
+                                 if step < 999990 else "model and implementation differ on the start state",
                          "start": parts[0], "ops": parts[1], "model": text_of(mtxt),
-                         "implementation": parts[2 + step] if 2 + step < len(parts) else None, "shard": sh_["id"]}
+                         "implementation": parts[3 + step] if 3 + step < len(parts) else parts[2], "shard": sh_["id"]}
                     ctx.disagreements.append(d)
+    ctx.disagreements.sort(key=lambda d: len(d.get("ops") or "") if isinstance(d, dict) else 0)
     ctx.obligation("correspondence:%s containers (%d files, %d shards)" % (prop, len(files), len(summ["shards"])),
                    nok == len(files) and not ctx.disagreements, "model and implementation differ")
     # ---- oracle
     known_ids = {k["id"] for k in known}
     for ln in open(os.path.join(out, "oracle.jsonl")):
         d = json.loads(ln)
+        d["failed"] = [c for c in d["failed"] if c.startswith(tags)]
+        if not d["failed"]:
+            continue
         if d["class"] and d["class"] in known_ids:
             ctx.known_hits[d["class"]] = ctx.known_hits.get(d["class"], 0) + 1
             continue
@@ -152,7 +158,26 @@ def run_containers(ctx, known, built, prop, light=False):
     return summ
 
 
+def witnesses(ctx, known, sub, marker):
+    """replay the witness of every listed finding; a witness that no longer fails is stale (not an alarm)"""
+    import re
+    import driver
+    res = {}
+    for k in known:
+        m = re.search(r"witness=(\S+)", k["text"])
+        if not m:
+            continue
+        path = os.path.join(driver.VERIF, m.group(1))
+        if not os.path.exists(path):
+            res[k["id"]] = "witness file missing"
+            continue
+        rc, o = driver.sh([ctx.harness, sub, "--replay", path, "--out", ctx.scratch], timeout=300)
+        res[k["id"]] = "still fails" if marker(o) else "STALE: the witness no longer fails"
+    ctx.cov["known_finding_witnesses"] = res
+
+
 def run(ctx, known, built):
+    witnesses(ctx, known, "c06", lambda o: "oracle failure:" in o or "does not load" not in o and "P4" in o)
     summ = run_containers(ctx, known, built, "C06")
     if summ is None:
         return
